@@ -212,6 +212,12 @@ def monEvent (id : String) (a : DAcc) (m : Mon) (toks : List String) : DAcc × M
     (applyNotes id pre (applyNotes id pre a n1) n2, { m with st := st', sp := sp', active := m.active && !dead })
   else
     let (t', n1) := trackFut m.x m.t e
+    -- sessions with a mid-poll signal (`open:…:intr`): the lazy monitor may not have replayed an
+    -- event-less `Pending` poll that precedes the signal (`track_complete` needs `IntrAtQ`), so its
+    -- comparisons are recorded under facets no property depends on (DESIGN section 14)
+    let n1 := if m.p.intrQuiescent then n1 else n1.map (fun n => match n with
+      | .cmp facet what mo im => .cmp (facet ++ "~midpoll") what mo im
+      | x => x)
     let (p', n2) := predFut m.x m.p e
     let fin := match e with
       | .retOutcome .. => true | .retErr _ => true | .panic => true | .aborted => true | .livelock => true | _ => false
